@@ -140,6 +140,17 @@ def build_harness(name, flavor, sources, extra_flags="", libs=None, fuzzer=False
     return outp
 
 
+def strip_debug(binary):
+    """valgrind 3.19 cannot read clang-14's DWARF 5 and gives up; memcheck runs use a copy without debug info."""
+    out = binary + ".nodebug"
+    if not os.path.exists(out) or os.stat(out).st_mtime < os.stat(binary).st_mtime:
+        r = sh(["strip", "-g", "-o", out + ".tmp%d" % os.getpid(), binary])
+        if r.returncode != 0:
+            raise HarnessFailure("strip failed: " + r.stdout)
+        os.rename(out + ".tmp%d" % os.getpid(), out)
+    return out
+
+
 def seed():
     try:
         return int(os.environ.get("VERIF_SEED", "1"))
